@@ -3,6 +3,8 @@ package upstream
 import (
 	"context"
 	"errors"
+	"net"
+	"time"
 
 	"github.com/IrineSistiana/mosproxy/internal/dnsmsg"
 	"github.com/IrineSistiana/mosproxy/internal/upstream/transport"
@@ -64,4 +66,91 @@ func VerifH_C16_Fallback() {
 			verifrt.Assert(err == nil && r == tcpMsg, "the TCP reply is the outcome")
 		}
 	}
+}
+
+// vTCUDPConn: a datagram socket whose server answers every query with a truncated (TC=1) header-only reply.
+type vTCUDPConn struct {
+	net.Conn
+	inbox  chan []byte
+	closed chan struct{}
+	done   bool
+}
+
+func (c *vTCUDPConn) Write(p []byte) (int, error) {
+	r := make([]byte, 12)
+	r[0], r[1] = p[0], p[1]
+	r[2] = 0x82 // QR, TC
+	c.inbox <- r
+	return len(p), nil
+}
+func (c *vTCUDPConn) Read(p []byte) (int, error) {
+	select {
+	case b := <-c.inbox:
+		return copy(p, b), nil
+	case <-c.closed:
+		return 0, errVLeg
+	}
+}
+func (c *vTCUDPConn) Close() error {
+	if !c.done {
+		c.done = true
+		close(c.closed)
+	}
+	return nil
+}
+func (c *vTCUDPConn) LocalAddr() net.Addr {
+	return &net.UDPAddr{IP: net.IP{192, 0, 2, 200}, Port: 40000}
+}
+func (c *vTCUDPConn) RemoteAddr() net.Addr             { return &net.UDPAddr{IP: net.IP{192, 0, 2, 1}, Port: 53} }
+func (c *vTCUDPConn) SetDeadline(time.Time) error      { return nil }
+func (c *vTCUDPConn) SetReadDeadline(time.Time) error  { return nil }
+func (c *vTCUDPConn) SetWriteDeadline(time.Time) error { return nil }
+
+// VerifH_C16_SameServer: the upstream built by NewUpstream for a plain (udp / scheme-less) address: when the UDP reply
+// is truncated the query is retried over TCP **to the same server** — the address dialled for the TCP leg is
+// exactly the one dialled for UDP, for every host form and every dial_addr override.
+func VerifH_C16_SameServer() {
+	verifrt.Unwind(400)
+	verifrt.SchedBound(0)
+	verifrt.CtxNoExpiry = true
+	var dials []vDialRec
+	verifrt.Redirect("(*net.Dialer).DialContext", func(d *net.Dialer, ctx context.Context, network, address string) (net.Conn, error) {
+		dials = append(dials, vDialRec{network, address})
+		if network == "udp" {
+			return &vTCUDPConn{inbox: make(chan []byte, 4), closed: make(chan struct{})}, nil
+		}
+		return nil, errVLeg // the TCP connection attempt itself is not the subject
+	})
+	hosts := []struct{ url, want string }{
+		{"dns.example", "dns.example:53"},
+		{"dns.example:5353", "dns.example:5353"},
+		{"192.0.2.7", "192.0.2.7:53"},
+		{"[2001:db8::1]", "[2001:db8::1]:53"},
+		{"[2001:db8::1]:5353", "[2001:db8::1]:5353"},
+	}
+	h := hosts[verifrt.Choose("host", len(hosts))]
+	dialForms := []struct{ dial, want string }{
+		{"", ""},
+		{"198.51.100.9", "198.51.100.9:53"},
+		{"198.51.100.9:8853", "198.51.100.9:8853"},
+		{"other.example", "other.example:53"},
+		{"[2001:db8::9]:8853", "[2001:db8::9]:8853"},
+	}
+	df := dialForms[verifrt.Choose("dial", len(dialForms))]
+	scheme := []string{"udp://", ""}[verifrt.Choose("scheme", 2)]
+	u, err := NewUpstream(scheme+h.url, Opt{DialAddr: df.dial})
+	verifrt.Assert(err == nil && u != nil, "supported address form is accepted")
+	q := make([]byte, 12)
+	q[0], q[1] = 0x12, 0x34
+	r, err := u.ExchangeContext(context.Background(), q)
+	verifrt.Quiesce()
+	verifrt.Reach("exchanged")
+	verifrt.Assert(r == nil && err != nil, "the truncated UDP reply is not returned; the (failing) TCP leg is the outcome")
+	want := df.want
+	if want == "" {
+		want = h.want
+	}
+	verifrt.Assert(len(dials) == 2 && dials[0].network == "udp" && dials[1].network == "tcp", "one UDP exchange, then exactly one TCP attempt")
+	verifrt.Assert(dials[0].addr == want, "UDP goes to the configured server (dial_addr override honoured)")
+	verifrt.Assert(dials[1].addr == dials[0].addr, "the TCP retry goes to the same server as the UDP query")
 }
